@@ -209,6 +209,20 @@ def rule_write_after_render(ctx):
                                      r"\(\? \(zydeco_cli::format::SourceFormatter::render \$P0 \$P1 \(\? \(core::result::Result::<T, E>::map_err \(std::fs::read_to_string \$P1\) .*\)\)\)\)\)\)$", outs[0]) is not None
     ctx.check(ok, rule, "render_source:pair", "render_source returns %s; expected (the text read from the path, render(path, that text))"
               % [o[:160] for o in outs], facts.bodies()[fn]["loc"], detail={"returns": "(source, render(path, &source))"})
+    # .. and the first component is the text AS READ: not completed, trimmed or otherwise edited before it is compared / rendered
+    from .. import symval
+    mm = facts.mir(fn)
+    if mm is not None:
+        sv = symval.SymValues(M.Body(fn, mm))
+        pairs = sv.aggregates(lambda rv: rv.get("ak") == "tuple" and len(rv["ops"]) == 2)
+        clean = [ops for _, _, ops in pairs if "std::fs::read_to_string $P1" in ops[0]]
+        ok = sv.stable and len(pairs) == 1 and len(clean) == 1 and "mutated-by" not in clean[0][0] and "phi@" not in clean[0][0] \
+            and "mutated-by" not in clean[0][1] and "phi@" not in clean[0][1]
+        ctx.check(ok, rule, "render_source:source-as-read", "render_source edits the text it read before comparing / rendering it (%s): "
+                  "`fmt` then judges a file `unchanged` by comparing the output with something other than the bytes on disk (a file "
+                  "that only lacks its final newline is never rewritten), or formats a text that is not the file's"
+                  % [o[:120] for ops in [p[2] for p in pairs] for o in ops][:2], facts.bodies()[fn]["loc"],
+                  detail={"source": "the value of fs::read_to_string(path) on every path (symbolic value flow)"})
     # the unchanged test: both entry points compare the same pair
     for f in ("format_path", "check_path"):
         hh = ctx.need_hir(rule, CLI + f)
@@ -398,6 +412,50 @@ def rule_literal_escapes(ctx):
     ctx.check(arms.get("Char") == "debug", rule, "printer:Char", "char literals are printed with %s (audited: Debug; the CharLit language "
               "is printable ASCII plus \\n \\r \\t, on which char's Debug emits exactly the escapes apply_char_escapes decodes)" % arms.get("Char"),
               facts.bodies()[fn]["loc"], detail={"printer": arms.get("Char")})
+
+
+def rule_directive_scope(ctx):
+    """a width directive is honoured by the text that is EMITTED, not only by the layout that is measured"""
+    from . import c07
+    rule = "directive-scope"
+    facts = ctx.facts
+    ctx.rule(rule, "PrettyFormatter::format_annotated: when the directive changes the line width, every document returned after the "
+                   "pre-render (try_render_doc at the directive's width) is built from the pre-rendered TEXT, never from the payload "
+                   "document: a document would be laid out again by the ambient renderer at the ambient width, so `fits on one line` "
+                   "is decided at one width and the breaks are made at another, and the second run (which reads those breaks back as "
+                   "intentions) formats differently")
+    fn = FORMATTER + "format_annotated"
+    h = ctx.need_hir(rule, fn)
+    if h is None:
+        return
+    loc = facts.bodies()[fn]["loc"]
+    e = A.ArmEnv()
+    e.strip = True
+    e.bind_params(h)
+    e.absorb(h["body"])
+    pre = [x for x in H.walk(h["body"]) if H.kind(x) in ("Call", "MethodCall") and (H.callee(x) or "").endswith("::try_render_doc")]
+    ctx.check(len(pre) == 1, rule, "format_annotated:pre-render", "format_annotated pre-renders its payload %d times (expected once, with the "
+              "scoped formatter)" % len(pre), loc, detail={"pre_render": "scoped.try_render_doc(payload.document)"})
+    if len(pre) != 1:
+        return
+    after = pre[0].get("ln") or 0
+    n = 0
+    for o in c07._results(h["body"]):
+        if (o.get("ln") or 0) <= after:
+            continue          # results before the pre-render: same width, the payload document is laid out by the one renderer
+        n += 1
+        sx = A.sexpr(o, e)
+        uses_text = "try_render_doc" in sx
+        # the payload fragment may only occur as the operand of try_render_doc
+        stripped = re.sub(r"\(zydeco_surface::textual::pretty::PrettyFormatter::<'arena>::try_render_doc .*?/Ok\.0", "", sx)
+        stripped = re.sub(r"\(zydeco_surface::textual::pretty::PrettyFormatter::<'arena>::try_render_doc ", "", stripped) if "/Ok.0" not in sx else stripped
+        raw_payload = "term_through_fragment" in stripped
+        is_fail = sx.endswith("::fail )") or "RcDoc::<'a, A>::fail" in sx and "append" not in sx
+        ctx.check(is_fail or (uses_text and not raw_payload), rule, "format_annotated:result@%d" % n,
+                  "format_annotated returns %s after pre-rendering at the directive's width: the payload DOCUMENT is emitted (to be laid "
+                  "out by the ambient renderer at the ambient width) instead of the pre-rendered text" % sx[:200], [loc[0], o.get("ln")],
+                  detail={"built_from": "fail" if is_fail else "pre-rendered text"})
+    ctx.floor(rule, "results after the pre-render", n, 3)
 
 
 def rule_directive_bounds(ctx):
